@@ -308,6 +308,33 @@ fn gen_history18(rng: &mut Rng, uni: &Universe, stats: &mut Stats) -> (Vec<SOp>,
     (h, dl)
 }
 
+/// The large store in a form the model evaluates in seconds: one entry per author, written in DESCENDING
+/// author order (every table insert then happens at the front of the sorted lists), and a second, newer
+/// entry under a smaller key only for the authors whose (document, author) pair sits around position 1024
+/// of the table.
+fn gen_history18_large_lean(rng: &mut Rng, uni: &Universe, stats: &mut Stats) -> (Vec<SOp>, usize) {
+    let mut h = Vec::new();
+    let (ns, secret) = uni.docs[0];
+    h.push(SOp::Import { ns, secret: Some(secret) });
+    let nsec = iroh_docs::NamespaceSecret::from_bytes(&secret);
+    let n_authors = 1040 + rng.below(20) as usize;
+    let mut authors: Vec<iroh_docs::Author> = (0..n_authors).map(|_| iroh_docs::Author::from_bytes(&rng.bytes32())).collect();
+    authors.sort_by_key(|a| a.id().to_bytes());
+    for idx in (0..n_authors).rev() {
+        let a = &authors[idx];
+        h.push(SOp::RawPut { e: signed_raw(&nsec, a, b"k", HASH_A, 1, T0 + 1) });
+        if (1015..=1035).contains(&idx) {
+            h.push(SOp::RawPut { e: signed_raw(&nsec, a, b"a", HASH_B, 2, T0 + 2) });
+        }
+    }
+    stats.inc("large_store_histories");
+    stats.add("large_store_authors", n_authors as u64);
+    h.push(SOp::Heads { ns });
+    h.push(SOp::WipeReopen { latest: true, bykey: false });
+    h.push(SOp::Heads { ns });
+    (h, 1)
+}
+
 fn gen_history18_large(rng: &mut Rng, uni: &Universe, stats: &mut Stats) -> (Vec<SOp>, usize) {
     let mut h = Vec::new();
     let (ns, secret) = uni.docs[0];
@@ -343,7 +370,12 @@ pub fn run(pid: &str, seed: u64, n: usize, out: &Path, _thorough: bool) -> anyho
         let uni = Universe::new(seed.wrapping_add((i % 4) as u64), 2 + (i % 2), 1 + rng.below(3) as usize);
         let persistent = pid == "C18" || rng.chance(1, 3);
         let mut dump_len = 0usize;
-        let ops = if pid == "C18" && _thorough && (i == 7 || i == 1507) {
+        let ops = if pid == "C18" && !_thorough && i == 7 {
+            // the lean form of the large store for the quick tier (see gen_history18_large_lean)
+            let (h, dl) = gen_history18_large_lean(&mut rng, &uni, &mut stats);
+            dump_len = dl;
+            h
+        } else if pid == "C18" && _thorough && (i == 7 || i == 1507) {
             // a large store: more than a thousand (document, author) pairs, two entries each with the newer
             // one under the smaller key, then the head table is deleted and rebuilt (a rebuild that works in
             // batches, or keeps per-author state in something of bounded size, shows only at this volume);
